@@ -578,3 +578,30 @@ Example c19_writer_codec_spec_ex :
   writer_codec (str "a.gz.XZ") = Some Xz /\ writer_codec (str "a.xz.Gz") = Some Gzip /\
   writer_codec (str "x.gz.bak") = None /\ writer_codec (str "K.BZIP2") = Some Bzip2.
 Proof. vsplit. Qed.
+
+(* the ObjectIO contract promises no order for list_objects: whatever permutation of the keys
+   with the listing prefix the store hands over, filtering it by the compiled pattern and sorting
+   gives the expansion of the whole bucket (the fake store happens to list in sorted order) *)
+Theorem c19_listing_order_irrelevant :
+  forall (ks : list (list N)) (p : list N) (listing : list (list N)) (r : regex),
+    parse (glob_to_regex p) = Some r ->
+    Permutation listing (filter (prefix_ok (literal_prefix p)) ks) ->
+    sort_keys (filter (rmatch r) listing) = expand_ref ks p.
+Proof. exact listing_order_irrelevant. Qed.
+
+Example c19_listing_order_irrelevant_ex :
+  let ks := [str "d/b"; str "e/x"; str "d/a"; str "d/c/z"; str "da"] in
+  let p := str "d/*" in
+  exists r, parse (glob_to_regex p) = Some r /\
+    Permutation [str "d/c/z"; str "d/a"; str "d/b"] (filter (prefix_ok (literal_prefix p)) ks) /\
+    sort_keys (filter (rmatch r) [str "d/c/z"; str "d/a"; str "d/b"]) = [str "d/a"; str "d/b"] /\
+    expand_ref ks p = [str "d/a"; str "d/b"] /\
+    ms_list (ms_put (ms_put [] (str "b") (str "d/b") []) (str "b") (str "d/a") []) (str "b") (Some (str "d/"))
+      = Ok [str "d/a"; str "d/b"].
+Proof.
+  cbv zeta. eexists. split; [vm_compute; reflexivity|]. split.
+  - vm_compute. apply Permutation_sym.
+    eapply perm_trans; [apply perm_swap|].
+    eapply perm_trans; [apply perm_skip; apply perm_swap|]. apply perm_swap.
+  - vsplit.
+Qed.
